@@ -1222,10 +1222,10 @@ func (as *AbacoSource) distributeData(buffersMsg AbacoBuffersType) *dataBlock {
 				droppedFrames:   buffersMsg.droppedFrames,
 			}
 			block.segments[channelIndex] = seg
-			block.nSamp = len(data)
 		}(channelIndex)
 	}
 	wg.Wait()
+	block.nSamp = framesUsed // every channel's data has this length; set once, not by every channel's goroutine
 	as.nextFrameNum += FrameIndex(framesUsed)
 	if as.heartbeats != nil {
 		pmb := float64(buffersMsg.totalBytes) / 1e6
